@@ -169,11 +169,6 @@ func Verif_C46_RoundTrip() {
 	c46RoundTrip(n, "PGP MESSAGE", nil)
 }
 
-func Verif_C46_Probe3()  { c46RoundTrip(3, "PGP MESSAGE", nil) }
-func Verif_C46_Probe47() { c46RoundTrip(47, "PGP MESSAGE", nil) }
-func Verif_C46_Probe48() { c46RoundTrip(48, "PGP MESSAGE", nil) }
-func Verif_C46_Probe50() { c46RoundTrip(50, "PGP MESSAGE", nil) }
-
 // Verif_C46_RoundTripQ: registered variant, lengths {0,1,2,3,49}.
 func Verif_C46_RoundTripQ() {
 	ns := []int{0, 1, 2, 3, 49}
